@@ -3,7 +3,7 @@
    contract, any triggers, all label sequences (see Props/C03.v for the transition system). *)
 From Coq Require Import ZArith List Bool String.
 Require Import QzSched.Gen.Params QzSched.SchedModel QzSched.ListQueue QzSched.Triggers QzSched.LtsDefs
-               QzSched.ApiProofs QzSched.FetchProofs QzSched.C03Proofs QzSched.C08Proofs QzSched.C04Proofs QzSched.ExampleDefs QzSched.Examples.
+               QzSched.ApiProofs QzSched.FetchProofs QzSched.C03Proofs QzSched.C08Proofs QzSched.C04Proofs QzSched.RunOnceProofs QzSched.ExampleDefs QzSched.Examples.
 Import ListNotations.
 Open Scope list_scope.
 Open Scope Z_scope.
@@ -74,14 +74,22 @@ Theorem C04_trigger_error_leaves_registry :
 Proof. exact trigger_error_leaves_registry. Qed.
 Print Assumptions C04_trigger_error_leaves_registry.
 
-(* run-once, the step: once RunOnceTrigger has produced its single fire time, the fetch that finds it on time
-   hands the job to execution and removes it; late -> misfired, not executed, removed; not due -> kept.
-   FULL STATEMENT NOT PROVED (run_once_once): "in every run, a job scheduled with a fresh RunOnceTrigger used by
-   no other job has at most one valid dequeue, and exactly one if every fetch finds it on time". What is missing
-   is the counting invariant over the abstract queue (at most one active entry per run-once trigger); the parts
-   proved are this step theorem, the latch (Triggers.nft_exec: after one result every call fails), and C03's
-   injection (each execution needs its own valid dequeue). *)
-Theorem C04_run_once_once_partial :
+(* run-once, over a whole run: from the empty scheduler, with a RunOnceTrigger t that has not fired yet, along ANY label
+   sequence without foreign writers (any clients, split ScheduleJob calls, pause / resume / replace, any number of
+   schedulers, the trigger shared by several jobs): at most one valid dequeue ever takes an entry driven by t (vcount),
+   hence -- C03: every execution needs its own valid dequeue -- the job is executed at most once *)
+Theorem C04_run_once_once :
+  forall (O : queue_ops), queue_contract O ->
+  forall (thr : nat -> Z) (t : tid) (d : Z) ts0 now0 tr s,
+    ts0 t = TOnce d false -> Forall no_foreign tr ->
+    run O xstate nft_exec thr (init O xstate ts0 now0) tr = Some s ->
+    (vcount t (s_log O xstate s) <= 1)%nat.
+Proof. exact run_once_once. Qed.
+Print Assumptions C04_run_once_once.
+
+(* run-once, the step: once RunOnceTrigger has produced its single fire time, the fetch that finds it on time hands the
+   job to execution (exactly then) and removes it; late -> misfired, not executed, removed; not due -> kept *)
+Theorem C04_run_once_step :
   forall (O : queue_ops), queue_contract O ->
   forall th now id i q ts job q1 q' ts' evs ret rst d,
     q_wf O q -> q_pop O q = Some (job, q1) -> e_susp job = false ->
@@ -93,7 +101,15 @@ Theorem C04_run_once_once_partial :
     (now - th <= e_prio job -> now < e_prio job ->
        ret = Some (job, false) /\ q_get O (e_key job) q' = Some job /\ evs = [EvDeq id i job false now]).
 Proof. exact run_once_fetch. Qed.
-Print Assumptions C04_run_once_once_partial.
+Print Assumptions C04_run_once_step.
+
+(* non-vacuity: a fresh run-once trigger (tid 1 of the example world), fetched on time: one valid dequeue, one execution *)
+Theorem C04_example_run_once : ts0 1%nat = TOnce 5 false /\ exists s,
+  run list_queue xstate nft_exec thr0 (init list_queue xstate ts0 100)
+      [LSchedPre 7 (jd kb false false) (Some 1%nat); LSchedCommit 7; LAdv 6; LFetch 0; LExec 0; LAdv 50; LFetch 0] = Some s /\
+  vcount 1%nat (s_log list_queue xstate s) = 1%nat /\ exec_ids (s_log list_queue xstate s) = [0%nat].
+Proof. exact ex_runonce_count. Qed.
+Print Assumptions C04_example_run_once.
 
 (* the first priority is NextFireTime(clock at ScheduleJob) *)
 Theorem C04_schedule_initial :
